@@ -129,7 +129,7 @@ def impl(case):
     # is cut by a CPU-time alarm; a first alarm is confirmed by a second run with a longer
     # budget, so that a stalled machine can never turn into a reported "hang"
     global _HANGS
-    first, second = (3.0, 15.0) if _HANGS < 3 else (1.0, 4.0)   # keep shrinking a real hang affordable
+    first, second = (3.0, 15.0) if _HANGS < 3 else ((1.0, 4.0) if _HANGS < 8 else (0.1, 0.4))  # real hangs stay affordable
     steps, timed_out = _run_history(case, first)
     if timed_out:
         steps, timed_out = _run_history(case, second)
